@@ -435,6 +435,17 @@ def measurement_options(op):
     return tuple(options)
 
 
+def parameters_equal(p1, p2):
+    """Exact comparison of two operation parameters (numbers, symbolic expressions or arrays).
+
+    Returns:
+        bool: True iff the parameters are identical
+    """
+    if isinstance(p1, np.ndarray) or isinstance(p2, np.ndarray):
+        return np.shape(p1) == np.shape(p2) and bool(np.all(np.asarray(p1) == np.asarray(p2)))
+    return bool(p1 == p2)
+
+
 def program_equivalence(prog1, prog2, compare_params=True, atol=1e-6, rtol=0):
     r"""Checks if two programs are equivalent.
 
